@@ -60,6 +60,7 @@ type labelRef struct {
 	ws      writeSite
 	prefixT string
 	idT     string
+	idV     ssa.Value // the operand itself (nil for writes made by a helper)
 }
 
 // paramOfTerm: the parameter a term of the form $k denotes.
@@ -89,7 +90,7 @@ func (c *Ctx) labelRefsOf(fn *ssa.Function) []labelRef {
 			}
 		}
 		if verbs+1 < len(ws.argT) {
-			out = append(out, labelRef{ws: ws, prefixT: ws.argT[verbs], idT: ws.argT[verbs+1]})
+			out = append(out, labelRef{ws: ws, prefixT: ws.argT[verbs], idT: ws.argT[verbs+1], idV: ws.argV(verbs + 1)})
 		}
 	}
 	return out
@@ -127,7 +128,8 @@ func c04a(c *Ctx) {
 			return r.idT == "$0.id"
 		}
 		for _, rc := range registerCalls(fn) {
-			if c.term(fn, rc.Common().Args[0]) == r.idT && instrDominates(rc.(ssa.Instruction), ws.call.(ssa.Instruction)) {
+			same := c.term(fn, rc.Common().Args[0]) == r.idT || (r.idV != nil && rc.Common().Args[0] == r.idV)
+			if same && instrDominates(rc.(ssa.Instruction), ws.call.(ssa.Instruction)) {
 				return true
 			}
 		}
@@ -211,7 +213,7 @@ func c05c(c *Ctx) {
 			}
 			refCalls := map[ssa.Instruction]bool{}
 			for _, r := range c.labelRefsOf(fn) {
-				if r.idT == x {
+				if r.idT == x || (r.idV != nil && r.idV == rc.Common().Args[0]) {
 					refCalls[r.ws.call.(ssa.Instruction)] = true
 				}
 			}
